@@ -55,8 +55,14 @@ def canon(x):
     raise TypeError(type(x))
 
 
-def fingerprint(obj):
-    return kernel.fp8(canon(vars(obj)))
+def fingerprint(obj, w=None):
+    """State key: everything the emulator object holds, plus the user's side of the world that later operations act
+    on (the post-selection object the user kept, the parameter value) - two histories are merged only when both agree."""
+    user = None
+    if w is not None:
+        user = ("unset" if w.ps is UNSET else None if w.ps is None else
+                tuple(r.as_tuple() for r in w.ps.rules), repr(w.par.get()))
+    return kernel.fp8((canon(vars(obj)), user))
 
 
 def dist_obs(fn):
@@ -85,6 +91,14 @@ def agree(a, b):
 # ---------------------------------------------------------------------------
 # worlds: circuits are rebuilt per replay so in-place edits stay per-history
 # ---------------------------------------------------------------------------
+UNSET = object()
+
+
+def user_ps(obj_ps, w):
+    """The post-selection as the user configured it: the object they assigned, else what the emulator object holds."""
+    return obj_ps if w.ps is UNSET else w.ps
+
+
 class World:
     def __init__(self, env):
         self.env = env
@@ -97,6 +111,7 @@ class World:
         d = lw.Circuit(3); d.mode_swaps({0: 1, 1: 0}); d.herald(0, 2)     # a pure permutation: exact expected mappings
         e = lw.Unitary(u1.copy()); e.herald(1, 2, 0)     # as b on the input side, the herald leaves on another mode
         self.circ = {"a": a, "b": b, "c": c, "p": p, "d": d, "e": e}
+        self.ps = UNSET        # the post-selection object the USER last handed over (and may keep editing)
         # "bad": right length, invalid occupation - the assignment must be refused and change nothing
         self.inputs = {"10": lw.State([1, 0]), "01": lw.State([0, 1]), "11": lw.State([1, 1]), "bad": lw.State([True, False])}
 
@@ -110,6 +125,7 @@ def mk_ps(kind):
     if kind == "none":
         return None
     p = lw.PostSelection()
+    if kind == "empty": return p      # no rule yet: rules may be added later to this very object
     if kind == "r0": p.add(0, (0, 1))
     elif kind == "r1": p.add(1, 1)
     else: p.add(0, 5)              # "rX": no output can satisfy it - the computation is refused
@@ -141,7 +157,12 @@ def sampler_apply(s, w, op):
     elif k == "src_inplace": setattr(s.source, op[1], op[2])
     elif k == "backend": s.backend = op[1]
     elif k == "read": s.probability_distribution
-    elif k == "draw": s.sample_N_inputs(40, seed=1); s.sample()
+    elif k == "draw":            # every sampling path once (each may refuse on its own)
+        for call in (lambda: s.sample_N_inputs(40, seed=1), s.sample, lambda: s.sample_N_outputs(3, seed=1)):
+            try:
+                call()
+            except Exception:  # noqa: BLE001
+                pass
     elif k == "det": s.detector = emu.Detector(efficiency=op[1], photon_counting=op[2])
     elif k == "det_inplace": setattr(s.detector, op[1], op[2])
     elif k == "edit":
@@ -191,7 +212,7 @@ def sampler_fresh(s, w):
     return build
 
 
-def sampler_config(s):
+def sampler_config(s, w=None):
     return kernel.fp8((full_fingerprint(s.circuit), tuple(s.input_state.s), s.backend.backend,
                        s.detector.efficiency, s.detector.p_dark, s.detector.photon_counting,
                        s.source.brightness, s.source.purity, s.source.indistinguishability))
@@ -200,7 +221,7 @@ def sampler_config(s):
 # ---------------- QuickSampler
 def quick_alphabet(env, tier):
     a = [("circuit", k) for k in "abcpe"] + [("param", v) for v in (env.R[1], env.L[1])] \
-        + [("input", k) for k in ("10", "01", "11", "bad")] + [("ps", k) for k in ("none", "r0", "r1", "rX")] \
+        + [("input", k) for k in ("10", "01", "11", "bad")] + [("ps", k) for k in ("none", "r0", "r1", "rX", "empty")] \
         + [("pc", True), ("pc", False), ("read",), ("draw",), ("ps_inplace",)]
     if tier == "thorough":
         a += [("edit", "bs"), ("edit", "herald")]
@@ -212,11 +233,17 @@ def quick_apply(q, w, op):
     if k == "circuit": q.circuit = w.circ[op[1]]
     elif k == "param": w.par.set(op[1])
     elif k == "input": q.input_state = w.inputs[op[1]]
-    elif k == "ps": q.post_select = mk_ps(op[1])
-    elif k == "ps_inplace": q.post_select.add(1, 1)      # a rule added to the object the sampler already holds
+    elif k == "ps":
+        p = mk_ps(op[1]); q.post_select = p; w.ps = p
+    elif k == "ps_inplace": user_ps(q.post_select, w).add(1, 1)      # a rule added to the object handed over earlier
     elif k == "pc": q.photon_counting = op[1]
     elif k == "read": q.probability_distribution
-    elif k == "draw": q.sample_N_outputs(2, seed=1)
+    elif k == "draw":
+        for call in (q.sample, lambda: q.sample_N_outputs(2, seed=1)):
+            try:
+                call()
+            except Exception:  # noqa: BLE001
+                pass
     elif k == "edit":
         if op[1] == "bs": q.circuit.bs(0, 1, reflectivity=0.21)
         else: q.circuit.herald(0, 0)
@@ -244,18 +271,18 @@ def quick_observe(build, acc):
 def quick_fresh(q, w):
     def build():
         return emu.QuickSampler(q.circuit, q.input_state, photon_counting=q.photon_counting,
-                                post_select=q.post_select), w
+                                post_select=user_ps(q.post_select, w)), w
     return build
 
 
-def quick_config(q):
+def quick_config(q, w):
     return kernel.fp8((full_fingerprint(q.circuit), tuple(q.input_state.s), q.photon_counting,
-                       tuple(r.as_tuple() for r in getattr(q.post_select, 'rules', []))))
+                       tuple(r.as_tuple() for r in getattr(user_ps(q.post_select, w), 'rules', []))))
 
 
 # ---------------- Analyzer
 def analyzer_alphabet(env, tier):
-    return [("circuit", k) for k in "abcd"] + [("ps", k) for k in ("none", "r0", "r1", "rX")] \
+    return [("circuit", k) for k in "abcd"] + [("ps", k) for k in ("none", "r0", "r1", "rX", "empty")] \
         + [("ps_inplace",), ("analyze", "10", None), ("analyze", "01", "same"), ("analyze", "both", "swap"), ("analyze", "both", None)]
 
 
@@ -273,8 +300,9 @@ def analyzer_call(an, w, which, exp):
 def analyzer_apply(an, w, op):
     k = op[0]
     if k == "circuit": an.circuit = w.circ[op[1]]
-    elif k == "ps": an.post_selection = mk_ps(op[1])
-    elif k == "ps_inplace": an.post_selection.add(1, 1)
+    elif k == "ps":
+        p = mk_ps(op[1]); an.post_selection = p; w.ps = p
+    elif k == "ps_inplace": user_ps(an.post_selection, w).add(1, 1)
     elif k == "analyze": analyzer_call(an, w, op[1], op[2])
     else: raise KeyError(op)
 
@@ -317,13 +345,14 @@ def analyzer_observe(build, acc):
 def analyzer_fresh(an, w):
     def build():
         f = emu.Analyzer(an.circuit)
-        f.post_selection = an.post_selection
+        f.post_selection = user_ps(an.post_selection, w)
         return f, w
     return build
 
 
-def analyzer_config(an):
-    return kernel.fp8((full_fingerprint(an.circuit), tuple(r.as_tuple() for r in getattr(an.post_selection, 'rules', []))))
+def analyzer_config(an, w):
+    return kernel.fp8((full_fingerprint(an.circuit),
+                       tuple(r.as_tuple() for r in getattr(user_ps(an.post_selection, w), 'rules', []))))
 
 
 # ---------------------------------------------------------------------------
@@ -339,7 +368,7 @@ def explore(kind, env, tier, max_depth):
     def check(hist, acc):
         live = observe(lambda: build_h(hist, env), acc)
         obj, w = build_h(hist, env)
-        ck = config(obj)
+        ck = config(obj, w)
         if ck not in fresh_cache:
             fresh_cache[ck] = observe(fresh(obj, w), acc)
         fr = fresh_cache[ck]
@@ -377,14 +406,14 @@ def explore(kind, env, tier, max_depth):
             if op[0] == "edit" and op in hist:
                 continue          # each in-place circuit edit at most once per history: keeps the space finite
             h = hist + (op,)
-            obj, _ = build_h(h, env)
+            obj, ww = build_h(h, env)
             acc.tick("transitions")
-            succ.append((fingerprint(obj), h))
+            succ.append((fingerprint(obj, ww), h))
         # invariant on every *new* state is evaluated by the parent after dedup (see below)
         return acc, succ
 
     # level-synchronous BFS with the invariant evaluated on each newly discovered state
-    seen = {fingerprint(build_h((), env)[0]): ()}
+    seen = {fingerprint(*build_h((), env)): ()}
     frontier = [()]
     total = kernel.Acc()
     depth = 0
